@@ -8,6 +8,8 @@ import (
 	"net/http"
 	"net/http/httptest"
 	"strings"
+	"sync"
+	"time"
 
 	"github.com/brocaar/lorawan"
 	"github.com/brocaar/lorawan/backend"
@@ -41,11 +43,11 @@ type C16Case struct {
 	SenderIDUpper bool
 	// MACVersion of the request ("" = the default "1.1.0"); the derivation follows OptNeg, not this string
 	MACVersion string
-	JoinNonce      int
-	NSKEK          []byte // nil = no KEK for the network server
-	ASKEK          []byte
-	MICFlip        int // -1 correct MIC, else the bit to flip
-	TxID           uint32
+	JoinNonce  int
+	NSKEK      []byte // nil = no KEK for the network server
+	ASKEK      []byte
+	MICFlip    int // -1 correct MIC, else the bit to flip
+	TxID       uint32
 }
 
 var (
@@ -561,6 +563,74 @@ func runC16(r *engine.Run) {
 		k.NSKEK, k.ASKEK = c16KEK16, c16KEK16
 		judge(c, k, C16Handler([]C16Case{k}, nil))
 		c.Outcome("mac-version-string")
+	})
+	// ---- B6: the same frame forwarded along several paths at the same time (several gateways /
+	// network servers): k requests carrying one PHYPayload but their own transaction id, DevAddr,
+	// DLSettings and RxDelay are in flight together. The overlap is forced: the device-keys callback
+	// holds each request until all k have reached it (or one second has passed, for an
+	// implementation that lets only one through at a time). Every answer is judged on its own request.
+	r.PartDims("B6/identical-frames-in-flight", []string{"requests in flight:2..4", "kind{join,rejoin0}", "optneg"}, 3*2*2, func(c *engine.Case) {
+		n := 2 + int(c.Index%3)
+		var ks []C16Case
+		for i := 0; i < n; i++ {
+			k := baseCase()
+			k.Kind = int(c.Index/3) % 2
+			if c.Index/6 == 1 {
+				k.DL |= 0x80
+			}
+			k.TxID = uint32(9000 + i)
+			k.DevAddr = 0x0A000000 + uint32(i)
+			k.RxDelay = 1 + i
+			k.DL = k.DL&0x80 | byte(0x11*(i+1))&0x7F
+			ks = append(ks, k)
+		}
+		var mu sync.Mutex
+		arrived := 0
+		all := make(chan struct{})
+		h, err := joinserver.NewHandler(joinserver.HandlerConfig{
+			GetDeviceKeysByDevEUIFunc: func(devEUI lorawan.EUI64) (joinserver.DeviceKeys, error) {
+				mu.Lock()
+				arrived++
+				if arrived == n {
+					close(all)
+				}
+				mu.Unlock()
+				select {
+				case <-all:
+				case <-time.After(time.Second):
+				}
+				return joinserver.DeviceKeys{DevEUI: devEUI, NwkKey: keyOf(ks[0].NwkKey), AppKey: keyOf(ks[0].AppKey), JoinNonce: ks[0].JoinNonce}, nil
+			},
+		})
+		if err != nil {
+			c.Fail("harness/new-handler", err.Error(), nil)
+			return
+		}
+		type res struct {
+			status int
+			body   []byte
+		}
+		out := make([]res, n)
+		var wg sync.WaitGroup
+		for i := range ks {
+			i := i
+			wg.Add(1)
+			go func() {
+				defer wg.Done()
+				defer func() { recover() }()
+				out[i].status, out[i].body = C16Serve(h, ks[i])
+			}()
+		}
+		wg.Wait()
+		c.Eval()
+		c.NonTrivial()
+		for i := range ks {
+			probs, _ := C16Judge(ks[i], out[i].status, out[i].body)
+			for _, p := range probs {
+				c.Fail(p[0], fmt.Sprintf("%d requests carrying one frame in flight, request %d: %s", n, i, p[1]), nil)
+			}
+		}
+		c.Outcome("identical-frames-in-flight")
 	})
 	// ---- C: KEK configurations
 	spC := (&engine.Space{}).Dim("ns kek{none,16,32}", 3).Dim("as kek{none,16}", 2).Dim("optneg", 2).Dim("kind", 4)
